@@ -843,17 +843,19 @@ impl<'layout, 'out> TableWriter<'layout, 'out> {
             self.write_dtpmod_relocation::<A>(got_address, dynamic_symbol_index)?;
         }
         let offset_entry = self.take_next_got_entry()?;
-        if let Some(dynamic_symbol_index) = res.dynamic_symbol_index {
-            if res.flags.is_interposable() {
-                self.write_dtpoff_relocation::<A>(
-                    got_address + crate::elf::TLS_OFFSET_OFFSET,
-                    dynamic_symbol_index.get(),
-                )?;
-            }
+        if let Some(dynamic_symbol_index) = res.dynamic_symbol_index
+            && res.flags.is_interposable()
+        {
+            self.write_dtpoff_relocation::<A>(
+                got_address + crate::elf::TLS_OFFSET_OFFSET,
+                dynamic_symbol_index.get(),
+            )?;
             *offset_entry = 0;
             return Ok(());
         }
-        // Convert the address to an offset within the TLS segment
+        // The symbol can't be interposed (e.g. it's protected), so no DTPOFF relocation is emitted
+        // and the offset has to be filled in statically. Convert the address to an offset within
+        // the TLS segment
         let address = res.address()?;
         *offset_entry = address
             .wrapping_sub(self.tls.start)
